@@ -78,10 +78,12 @@ func c04Scenarios(tier string) []CScenario {
 	)
 	// A batch far larger than anything else here (an implementation may treat large batches differently, and any
 	// per-key structure of fixed size is overrun) against single requests on keys from its middle and its end.
-	sc = append(sc,
-		CScenario{Name: "batch-of-200-vs-single-in-the-middle", Bound: 1, Threads: [][]CReq{{attsN(keyRange(0, 200), 0, 1)}, {att1(100, 0, 1)}}},
-		CScenario{Name: "batch-of-200-vs-single-at-the-end-then-batch", Bound: 1, Threads: [][]CReq{{attsN(keyRange(0, 200), 0, 1)}, {att1(199, 0, 1), attsN([]int{0, 199}, 1, 2)}}},
-	)
+	for _, n := range bigBatchSizes(tier) {
+		sc = append(sc,
+			CScenario{Name: fmt.Sprintf("batch-of-%d-vs-single-in-the-middle", n), Bound: 1, Threads: [][]CReq{{attsN(keyRange(0, n), 0, 1)}, {att1(n/2, 0, 1)}}},
+			CScenario{Name: fmt.Sprintf("batch-of-%d-vs-single-at-the-end-then-batch", n), Bound: 1, Threads: [][]CReq{{attsN(keyRange(0, n), 0, 1)}, {att1(n-1, 0, 1), attsN([]int{0, n - 1}, 1, 2)}}},
+		)
+	}
 	// Batches with three keys in every cyclic order, under both bytewise key orders (an implementation may order lock
 	// acquisition by key bytes).
 	for _, desc := range []bool{false, true} {
